@@ -179,6 +179,22 @@ def main():
         if prop == "C08":
             import c08  # noqa
             c08.prepare(seed, tier)
+    if replay and ":memcheck" in (r.get("signature") or ""):
+        # a finding of the supplementary memcheck stage: the case is replayed in the unsanitised build under valgrind
+        import memcheck  # noqa
+        mv, _, _ = memcheck.stage(prop, seed, tier, 0, os.path.join(CACHE, "run", prop + "-memcheck-replay"), only=[only_case])
+        known = load_known()
+        rcode = 0
+        for sig, rec in mv:
+            k = match_known(known, prop, sig)
+            if k:
+                print("KNOWN-FINDING: property=%s %s %s" % (prop, sig, k.get("description", "")))
+                continue
+            print("# %s: %s" % (sig, (rec.get("log") or "")[:1500]))
+            print("VIOLATION property=%s replay=%s" % (prop, replay))
+            rcode = 1
+        print("replay (memcheck): %d record(s)" % len(mv))
+        return rcode
     timeout = 8 * 3600 if tier == "thorough" else 3600
     results, timed_out = run_shards(binp, prop, seed, tier, workdir, nshards, only_case, timeout)
     recs = parse_outputs(results)
@@ -230,6 +246,18 @@ def main():
             harness_problems.append("case %s died once (sig %s, phase %s) but passed when re-run alone: inconclusive" % (r.get("case"), r.get("sig"), r.get("phase")))
         elif t == "truncated":
             truncated = True
+
+    # supplementary memcheck stage (thorough tier; VERIF_MEMCHECK_CASES=n forces it in any tier)
+    mc_notes = []
+    if only_case is None and meta and (tier == "thorough" or os.environ.get("VERIF_MEMCHECK_CASES")):
+        try:
+            import memcheck  # noqa
+            mv, mstats, mc_notes = memcheck.stage(prop, seed, tier, meta.get("ncases", 0), os.path.join(CACHE, "run", prop + "-memcheck"))
+            viols.extend(mv)
+            for k2, v2 in mstats.items():
+                stats[k2] = stats.get(k2, 0) + v2
+        except RuntimeError as e:
+            harness_problems.append("memcheck stage: build failed: %s" % str(e)[-300:])
 
     known = load_known()
     by_sig = {}
@@ -291,7 +319,7 @@ def main():
             "shards": nshards,
             "truncated_after_many_violations": truncated,
         },
-        "assumptions": ASSUMPTIONS_COMMON + extra.get("assumptions", []),
+        "assumptions": ASSUMPTIONS_COMMON + extra.get("assumptions", []) + mc_notes,
         "wall_s": round(wall, 2),
         "violations": len(new_viol_lines),
         "known_findings_seen": [l for l in known_lines],
